@@ -1018,7 +1018,10 @@ class Parser(ABC):
                     data_type.remove_reference()
 
                     root_type_model.reference.children = [
-                        c for c in root_type_model.reference.children if getattr(c, "parent", None)
+                        c
+                        for c in root_type_model.reference.children
+                        # a base-class reference (class B(A): pass written by --reuse-model) has no parent
+                        if getattr(c, "parent", None) or isinstance(c, BaseClassDataType)
                     ]
 
                     imports.remove_referenced_imports(root_type_model.path)
